@@ -28,8 +28,45 @@ impl std::fmt::Debug for Value {
     }
 }
 
+/// Compares an integer with a real by their numeric values. Converting the integer to `f64` would
+/// round it beyond 2^53
+fn cmp_int_real(i: i64, r: f64) -> Option<std::cmp::Ordering> {
+    use std::cmp::Ordering;
+
+    if r.is_nan() {
+        return None;
+    }
+    // -2^63 and 2^63 are exact as f64, every i64 lies in [-2^63, 2^63)
+    if r >= 9_223_372_036_854_775_808.0 {
+        return Some(Ordering::Less);
+    }
+    if r < -9_223_372_036_854_775_808.0 {
+        return Some(Ordering::Greater);
+    }
+    let whole = r.trunc();
+    // exact: |whole| < 2^63
+    match i.cmp(&(whole as i64)) {
+        Ordering::Equal => 0.0.partial_cmp(&(r - whole)),
+        ord => Some(ord),
+    }
+}
+
 impl PartialOrd for Value {
     fn partial_cmp(&self, other: &Self) -> Option<std::cmp::Ordering> {
+        // a real and a non-real operand (nil counts as 0, an object as its length)
+        match (*self, *other) {
+            (Value::Real(a), b) if !b.is_float() => {
+                if let Ok(b) = i64::try_from(b) {
+                    return cmp_int_real(b, a).map(std::cmp::Ordering::reverse);
+                }
+            }
+            (a, Value::Real(b)) if !a.is_float() => {
+                if let Ok(a) = i64::try_from(a) {
+                    return cmp_int_real(a, b);
+                }
+            }
+            _ => {}
+        }
         let (this, other) = self.try_cast_match(*other);
         match (this, other) {
             (Value::Object(a), Value::Object(b)) => unsafe { a.as_ref().partial_cmp(b.as_ref()) },
